@@ -32,20 +32,21 @@ type Event struct {
 
 // Scenario = peers with behaviours + script of honest-side events.
 type Scenario struct {
-	Name        string
-	Len         int // initial honest chain length
-	Peers       []Behaviour
-	Addrs       []string // optional explicit addresses
-	Script      []Event
-	Deadline    time.Duration // budget for the final convergence wait
-	Checkpts    []int         // heights of block checkpoints set in the chain parameters
-	Parallel    bool          // dial all peers at once instead of in listed order
-	Barrier     bool          // peers hold their first headers reply until every listed peer has connected
-	HoldCurrent bool          // peer i+1 is dialled only once the client reports IsCurrent() (it has caught up with peer i)
-	TipAge      time.Duration // when set: the honest tip's timestamp is this far in the past when the scenario is built
-	ManualGate  bool          // only peer 0 is dialled at the start; the scenario opens the other gates itself (OpenGate)
-	NoRedial    bool          // every peer can be dialled once: a peer the client dropped does not come back, nobody new joins
-	HoldCF      bool          // peer i+1 is dialled only after peer i has been asked for cfheaders (peer i alone at first)
+	Name         string
+	Len          int // initial honest chain length
+	Peers        []Behaviour
+	Addrs        []string // optional explicit addresses
+	Script       []Event
+	Deadline     time.Duration // budget for the final convergence wait
+	Checkpts     []int         // heights of block checkpoints set in the chain parameters
+	Parallel     bool          // dial all peers at once instead of in listed order
+	Barrier      bool          // peers hold their first headers reply until every listed peer has connected
+	HoldCurrent  bool          // peer i+1 is dialled only once the client reports IsCurrent() (it has caught up with peer i)
+	FutureTipMin int           // when set: the last block of the initial chain is stamped this many minutes in the FUTURE
+	TipAge       time.Duration // when set: the honest tip's timestamp is this far in the past when the scenario is built
+	ManualGate   bool          // only peer 0 is dialled at the start; the scenario opens the other gates itself (OpenGate)
+	NoRedial     bool          // every peer can be dialled once: a peer the client dropped does not come back, nobody new joins
+	HoldCF       bool          // peer i+1 is dialled only after peer i has been asked for cfheaders (peer i alone at first)
 }
 
 // Sim is one running scenario.
@@ -114,7 +115,14 @@ func New(sc Scenario, rng *rand.Rand, out func(op, obs string)) (*Sim, error) {
 		// blocks are one second apart: block 1 is Len-1 seconds older than the tip
 		s.W.FirstBlockTime = time.Now().Add(-sc.TipAge - time.Duration(sc.Len-1)*time.Second)
 	}
-	tip := s.W.Extend(s.W.Genesis, sc.Len, "t")
+	var tip *Blk
+	if sc.FutureTipMin > 0 {
+		// the last block is stamped ahead of the wall clock
+		tip = s.W.Extend(s.W.Genesis, sc.Len-1, "t")
+		tip = s.W.ExtendAt(tip, "t", time.Now().Add(time.Duration(sc.FutureTipMin)*time.Minute))
+	} else {
+		tip = s.W.Extend(s.W.Genesis, sc.Len, "t")
+	}
 	s.W.SetHonest(tip)
 	for i, b := range sc.Peers {
 		addr := fmt.Sprintf("10.0.%d.%d:18444", i/200, 1+i%200)
@@ -481,6 +489,16 @@ func (s *Sim) Run() {
 			s.announce(true)
 		case "sleep":
 			s.waitFor(time.Duration(ev.A)*time.Millisecond, func(Obs) bool { return false })
+		case "flood":
+			// peer ev.A floods ev.B junk block announcements (asynchronously)
+			s.out(fmt.Sprintf("flood %d %d", ev.A, ev.B), "-")
+			go s.Peers[ev.A].Flood(ev.B)
+		case "drain":
+			// wait until the flooder's announcements have all been written to the client
+			for k := 0; k < 400 && s.Peers[ev.A].Backlog() > 0; k++ {
+				s.waitFor(50*time.Millisecond, func(Obs) bool { return false })
+			}
+			s.out(fmt.Sprintf("drain %d", ev.A), fmt.Sprintf("left %d", min1(int32(s.Peers[ev.A].Backlog()))))
 		case "drop":
 			// peer ev.A closes its connection (and, with NoRedial, does not come back)
 			s.Peers[ev.A].Drop()
